@@ -19,6 +19,7 @@ mi_segment_t* _mi_arena_segment_clear_abandoned_next(mi_arena_field_cursor_t* pr
      would make every store to the segment a byte update at a symbolic offset of the array (8.5 M variables, no answer in 900 s) */
   mi_segment_t* s = &vc_segs[g_next_n - 1]; g_got_n++;
   __CPROVER_assume(s->used == s->abandoned && s->subproc == g_subproc && s->abandoned_visits < 100);   /* what "abandoned segment of this sub-process" means */
+  __CPROVER_assume(VC_MEMID_OK(s->memid));                 /* type invariant of a memid (contracts/heap_suit.h): arena memory names a registered arena, ids start at 1 */
   return s;
 }
 static void zero_counters(void) { g_next_n = 0; g_got_n = 0; g_reclaim_n = 0; g_mark_n = 0; g_trypurge_n = 0; }
